@@ -306,9 +306,10 @@ bool ColaTopologyAddon::useTopologySolver(void) const
 void ColaTopologyAddon::makeFeasible(bool generateNonOverlapConstraints, 
         vpsc::Rectangles& boundingBoxes, cola::RootCluster* clusterHierarchy)
 {
-    if (generateNonOverlapConstraints)
+    if (generateNonOverlapConstraints && topologyNodes.empty())
     {
-        // Set up topologyNodes:
+        // Set up topologyNodes (unless the caller has supplied them, in
+        // which case the routes refer to those):
         unsigned nodesTotal = boundingBoxes.size();
         topologyNodes = topology::Nodes(nodesTotal);
         for (unsigned id = 0; id < nodesTotal; ++id)
